@@ -19,7 +19,8 @@ Histories: from each start tree a random sequence (length <= 6) of
 ``expand_one_step``, ``new_ids`` and ``from_parse_tree(to_parse_tree())``,
 interleaved with cache-filling observations (``is_open``, ``structural_hash``,
 ``hash``, ``len``, ``str``, ``paths``, ``trie``) on random subtrees.  After every
-step the whole battery is evaluated on the new tree.
+step the whole battery is evaluated on the new tree; in half of the histories
+only after the last step (so that operations also meet never-observed caches).
 """
 from __future__ import annotations
 
@@ -333,19 +334,24 @@ def run_history(spec, hseed: str, max_len: int = MAX_LEN, obs: Optional[Observer
     viol: List[Tuple[str, str, int]] = []
     steps: List[str] = []
     counters = dict(replace_path=0, replace_path_retain_id=0, substitute=0, expand_one_step=0, new_ids=0,
-                    parse_tree_round_trip=0, open_trees=0, closed_trees=0, max_branching=0)
+                    parse_tree_round_trip=0, open_trees=0, closed_trees=0, max_branching=0, deferred_histories=0)
 
     def note(vs, step):
         for sig, what in vs:
             viol.append((sig, f"[{spec} seed {hseed} steps {steps}] {what}", step))
 
-    note(battery(t, rng, obs, "init"), 0)
+    # half of the histories observe only at the end, so that operations also run on trees whose
+    # cached flags were never filled in by an observation
+    defer = rng.random() < 0.5
+    if not defer:
+        note(battery(t, rng, obs, "init"), 0)
     length = rng.randint(1, max_len)
     step = 0
     attempts = 0
     while step < length and attempts < 4 * max_len:
         attempts += 1
-        _touch(t, rng)
+        if not defer or rng.random() < 0.3:
+            _touch(t, rng)
         rp = ref_paths(t)
         op = rng.choice(["replace", "replace", "replace", "subst", "expand", "newids", "ptree"])
         before = _snap(t)
@@ -477,12 +483,16 @@ def run_history(spec, hseed: str, max_len: int = MAX_LEN, obs: Optional[Observer
         # frame: the receiver is unchanged, also as seen through ISLa's own observers
         if _snap(t) != before:
             note([(f"{op}:receiver-mutated", f"{to_struct(t)!r:.100}")], step)
-        if (str(t), t.is_open()) != before_obs:
+        if not defer and (str(t), t.is_open()) != before_obs:
             note([(f"{op}:receiver-observations-changed", f"str/is_open {(str(t), t.is_open())} vs {before_obs}")], step)
         t = new_t
         counters["open_trees" if ref_open(t) else "closed_trees"] += 1
         counters["max_branching"] = max(counters["max_branching"], max_branching(t))
-        note(battery(t, rng, obs, op), step)
+        if not defer:
+            note(battery(t, rng, obs, op), step)
+    if defer:
+        note(battery(t, rng, obs, "deferred-history"), step)
+        counters["deferred_histories"] = 1
     return dict(steps=steps, n_steps=step, violations=viol, counters=counters,
                 final=f"{ref_str(t)!s:.60}")
 
@@ -599,7 +609,7 @@ def run(rep, tier, seed):
         if not fam_counts.get(fam):
             rep.checker_error(f"family {fam} produced zero histories")
     for op in ("replace_path", "replace_path_retain_id", "substitute", "expand_one_step", "new_ids", "parse_tree_round_trip",
-               "open_trees", "closed_trees"):
+               "open_trees", "closed_trees", "deferred_histories"):
         if not totals.get(op):
             rep.checker_error(f"reachability counter {op} is zero")
     if maxb < 40:
